@@ -50,6 +50,10 @@ impl Vm {
                     self.bp = 0;
                     self.ep = usize::MAX;
                     self.acc = VCell::undefined();
+                    // What the failed evaluation allocated is garbage now: this is a collection
+                    // point like the end of a successful evaluation. Without it a sequence of
+                    // failing evaluations never collects and the heap grows without bound.
+                    self.run_gc();
                     return Err(e);
                 }
             }
